@@ -364,6 +364,17 @@ def h_tokens(eng, case):
             toks.append(bwrap(blist(eng.bytes('tok%d' % i, min(L, 4))) + [i + 1] * max(0, L - 4)))
     ints = [bytes(enc.make_interest('/p/%d' % i, enc.InterestParam(nonce=i + 1, lifetime=4000))) for i in range(2)]
     datas = [bytes(enc.make_data('/p/%d' % i, enc.MetaInfo(), b'reply%d' % i)) for i in range(2)]
+    if case.get('dlen'):
+        # reply 0 has exactly this many octets on the wire: the envelope around it (token + fragment headers) crosses
+        # a length-of-length boundary although the reply itself does not (or the other way round)
+        base = len(bytes(enc.make_data('/p/0', enc.MetaInfo(), b'')))
+        for c in range(max(0, case['dlen'] - base - 4), case['dlen']):
+            d = bytes(enc.make_data('/p/0', enc.MetaInfo(), bytes((k * 5 + 1) & 0xFF for k in range(c))))
+            if len(d) == case['dlen']:
+                datas[0] = d
+                break
+        else:
+            return                       # no content length gives this wire length (length field changes width)
     order = [(0, 1), (1, 0)][eng.choice(2, 'order')]
 
     async def main(loop):
@@ -380,7 +391,10 @@ def h_tokens(eng, case):
             if key not in saved:
                 continue
             n0 = len(face.out)
-            ret = saved[key][0](datas[i])
+            try:
+                ret = saved[key][0](datas[i])
+            except Exception as e:
+                ret = ('exc', exc_sig(e))
             res[i] = (ret, face.out[n0:], saved[key][1].get('pit_token'))
         return res
     loop, res, err = appenv.run(eng, main)
@@ -392,6 +406,9 @@ def h_tokens(eng, case):
             eng.fail('token-pairing', 'handler-not-invoked', {'i': i})
             continue
         ret, sent, ctx_tok = res[i]
+        if isinstance(ret, tuple):
+            eng.fail('token-pairing', 'reply-raises:' + ret[1], {'i': i, 'reply_octets': len(datas[i])})
+            continue
         eng.check(len(sent) == 1, 'token-pairing', {'sent': len(sent)}, sig='reply-count')
         if len(sent) != 1:
             continue
@@ -447,4 +464,10 @@ def cases(tier, seed):
             if l0 is None and l1 is None:
                 continue
             cs.append(('tokens', {'lens': [l0, l1]}))
+    # reply sizes around the places where the envelope's own length field changes width
+    for tl in (0, 3, 32):
+        for dlen in list(range(210, 262)) + list(range(65480, 65542, 1 if not quick else 3)):
+            if quick and tl == 3 and dlen % 2:
+                continue
+            cs.append(('tokens', {'lens': [tl, None], 'dlen': dlen}))
     return cs
